@@ -187,6 +187,14 @@ let run_case (t : string list) : string =
       | KACTL _ -> "acTL" | KFCTL q -> Printf.sprintf "fcTL:%d" (int_of_nat q) | KIDAT -> "IDAT"
       | KFDAT q -> Printf.sprintf "fdAT:%d" (int_of_nat q) | KIEND -> "IEND" | KIHDR -> "IHDR" | KPLTE -> "PLTE" | KANC -> "anc") log)
     ^ " | " ^ String.concat "," (List.map (fun r -> match r with FOk -> "ok" | FErrSink -> "sink" | FErrEndReached -> "end" | FErrMissingFrames -> "missing") rs)
+  | ["frect"; w; h; ops] ->
+    (* frame-rectangle setters and images on an animated encoder: D<w>x<h> | P<x>x<y> | RD | RP | I, comma separated *)
+    let two s = match String.split_on_char 'x' s with [a; b] -> (zs a, zs b) | _ -> failwith "frect" in
+    let os = List.map (fun t ->
+      if t = "I" then FImage else if t = "RD" then FResetDim else if t = "RP" then FResetPos
+      else if t.[0] = 'D' then (let (a, b) = two (String.sub t 1 (String.length t - 1)) in FDim (a, b))
+      else (let (a, b) = two (String.sub t 1 (String.length t - 1)) in FPos (a, b))) (String.split_on_char ',' ops) in
+    String.concat " " (List.map (fun l -> String.concat ":" (List.map (fun n -> string_of_int (int_of_z n)) l)) (frun_codes (zs w) (zs h) os))
   | ["writer"; anim; sep; plte; ns] ->
     let c = { animated = (if anim = "-" then None else Some (nat_of_int (int_of_string anim))); sep_def = (sep = "1"); has_plte = (plte = "1"); anc_before = O; anc_after = O } in
     let l = emitted c (List.map (fun x -> nat_of_int (int_of_string x)) (String.split_on_char ',' ns)) in
